@@ -427,6 +427,49 @@ def _environment(ctx):
                     ctx.violation(f"cli:dir-named-like-system:{'exit' if rc1 else 'stdout'}",
                                   f"cij fill -s {system}: exit {rc1} / different stdout when ./{system}/ exists\n{e1}", case_id,
                                   {"system": system, "file": txt})
+        # ---- command-line flags reach the filler: --ignore-rank / --ignore-residuals / --drop-atol -----------------
+        from click.testing import CliRunner
+        import cij.cli.fill
+        for n in range(ctx.pick(18, 360)):
+            k += 1
+            system = laue.SYSTEMS[n % 9]
+            case_id = f"cliflags-{system}-{n}"
+            if not ctx.mine(k, case_id):
+                continue
+            rng = ctx.rng("cliflags", system, n)
+            nrows = int(rng.integers(1, 5))
+            field = FT.invariant_field(rng, system, nrows)
+            kind = ["insufficient", "inconsistent"][n % 2]
+            if kind == "insufficient":
+                S = FT.insufficient_subset(rng, system)
+                if not S or laue.sufficient(system, S):
+                    continue
+                f2 = field
+                flag = "--ignore-rank"
+            else:
+                S = FT.superset(rng, FT.minimal_sufficient(rng, system), 0.5)
+                i_dep = dependent_pair(system, S, rng)
+                if i_dep is None:
+                    continue
+                f2 = field.copy()
+                f2[:, i_dep] += 20.0
+                flag = "--ignore-residuals"
+            txt = "title\n560.0 %d 100.0\nV " % nrows + " ".join(FT.NAMES[i] for i in S) + "\n"
+            for r in range(nrows):
+                txt += "%.4f " % (600 - 10 * r) + " ".join("%.8f" % f2[r, i] for i in S) + "\n"
+            path = os.path.join(tmp, f"flags{n}.dat")
+            open(path, "w").write(txt)
+            r_plain = CliRunner().invoke(cij.cli.fill.main, ["-s", system, path])
+            r_flag = CliRunner().invoke(cij.cli.fill.main, ["-s", system, flag, path])
+            ctx.evaluation(f"cli-flag|{flag}", (system, n, kind), sample={"system": system, "class": kind, "flag": flag,
+                                                                          "exit_without_flag": r_plain.exit_code, "exit_with_flag": r_flag.exit_code})
+            data = {"system": system, "file": txt, "flag": flag}
+            if r_plain.exit_code == 0:
+                ctx.violation(f"cli:refusal-missing:{kind}", f"cij fill -s {system} accepted a table that is {kind}", case_id, data)
+            elif not isinstance(r_plain.exception, Warning):
+                ctx.violation(f"cli:refusal-wrong-error:{type(r_plain.exception).__name__}", f"cij fill -s {system} on {kind} data failed with {r_plain.exception!r}", case_id, data)
+            if r_flag.exit_code != 0:
+                ctx.violation(f"cli:flag-does-not-switch-off-refusal:{flag}", f"cij fill -s {system} {flag} still fails on {kind} data: {r_flag.exception!r}", case_id, data)
     finally:
         os.chdir(here)
         shutil.rmtree(tmp, ignore_errors=True)
